@@ -101,14 +101,28 @@ def check_case(case, ctx):
     return {"nontrivial": nontrivial["v"], "classes": sorted(classes)}
 
 
+def enum_phase(ctx):
+    """All ordered pairs of concrete reversible ops inside one block on fixed base models (small scope, complete)."""
+    from vfw.props.c01 import ENUM_SPECS
+
+    names = [n for n in ops.OPS if n in ops.REVERSIBLE and n not in ("optimize",)]
+    prefix = [{"op": "add_var", "name": 0, "b": (0, 10), "kind": "continuous"}]
+    cases_ = (c for k, c in enumerate(ops.pair_cases(1, ENUM_SPECS, names, in_block=True, per_name=ctx.params["per_name"], prefix=prefix))
+              if k % ctx.n_shards == ctx.shard)
+    done = ctx.run_enumeration(cases_, check_case, "history")
+    ctx.exhaustive = bool(done)
+
+
 def hyp_phase(ctx):
     ctx.run_hypothesis(case_strategy(ctx.params["max_ops"]), check_case, "history", ctx.params["max_examples"])
 
 
 def phases(tier):
     if tier == "quick":
-        return [Phase("hyp", hyp_phase, shards=8, params={"max_examples": 400, "max_ops": 30, "budget_s": 75, "crash_journal": True})]
-    return [Phase("hyp", hyp_phase, shards=16, params={"max_examples": 1500, "max_ops": 50, "budget_s": 540, "crash_journal": True})]
+        return [Phase("hyp", hyp_phase, shards=8, params={"max_examples": 400, "max_ops": 30, "budget_s": 75, "crash_journal": True}),
+                Phase("pairs", enum_phase, shards=8, params={"per_name": 2, "budget_s": 75, "crash_journal": True})]
+    return [Phase("hyp", hyp_phase, shards=16, params={"max_examples": 1200, "max_ops": 50, "budget_s": 400, "crash_journal": True}),
+            Phase("pairs", enum_phase, shards=16, params={"per_name": 3, "budget_s": 300, "crash_journal": True})]
 
 
 CHECKS = {"history": check_case}
